@@ -69,7 +69,8 @@ CHECKS = {
         "Corpus S3 (host tripeptide x position x option set x environment "
         "with <=2 deviations: clash probes, omitted/extra atoms, water "
         "lattice, partner poses, backbone gaps, rebuilt-atom clashes, "
-        "hydrogen / backbone omissions, asymmetric acids, neutral termini), "
+        "hydrogen / backbone omissions, asymmetric acids, neutral termini, "
+        "ideal-slot partner pairs, the torsion alphabet, alias names), "
         "chain layouts, real 3-residue windows + strands through the real pipeline with "
         "monitors on every Optimize method; the observed automaton of "
         "temporary-atom bookkeeping is reported as states/transitions; "
